@@ -1,4 +1,5 @@
 import Lattigo.Props.C01Words
+import Lattigo.Props.C01NTT
 /-!
 # C01 — RNS ring arithmetic equals exact arithmetic in Z_Q[X]/(X^N+1)
 
